@@ -20,6 +20,8 @@ pub struct RunCtx {
     pub counters: BTreeMap<String, u64>,
     pub states: BTreeSet<u64>,
     pub pairs: BTreeSet<u64>,
+    /// cells of a finite coverage matrix the engine wants counted (e.g. C08's cast matrix)
+    pub cells: BTreeSet<u64>,
     pub findings: BTreeSet<(String, String)>,
     pub effective_steps: u32,
     pub mutating_steps: u32,
@@ -37,6 +39,7 @@ impl RunCtx {
             counters: BTreeMap::new(),
             states: BTreeSet::new(),
             pairs: BTreeSet::new(),
+            cells: BTreeSet::new(),
             findings: BTreeSet::new(),
             effective_steps: 0,
             mutating_steps: 0,
